@@ -133,7 +133,7 @@ variable (T : Stat) {s : Store} {out : CSem2.Outcome} {lp : Bool × Bool} {brk c
 /-- `T a[n];`: the `alloc` has been executed in the start block; the elements hold no value -/
 theorem sim_adecl (n : Nat) (i : Nat) (t : CSem.Ty) (cnt xb : Nat)
     (hex : exec T.S.cs T.P (n + 1) s (.adecl i t cnt xb) = some out) (hp : Pos T c nd pre)
-    (inv : SInv T.M0 T.S.cs T.cnts T.σ T.vtys s env M) :
+    (inv : SInv T.M0 T.S.cs T.cnts T.W T.σ T.vtys s env M) :
     Post T lp brk cont (T.at env M pre) (pre ++ (funcstmt T.S.cs brk cont (.adecl i t cnt xb) c).items)
       (funcstmt T.S.cs brk cont (.adecl i t cnt xb) c).ctx out := by
   simp only [exec, Option.some.injEq] at hex
@@ -144,11 +144,11 @@ theorem sim_adecl (n : Nat) (i : Nat) (t : CSem.Ty) (cnt xb : Nat)
 /-- `x = a[idx];` -/
 theorem sim_aload (n : Nat) (dst : Nat) (dt : CSem.Ty) (arr : Nat) (t : CSem.Ty) (cnt xb : Nat) (idx : Expr)
     (hex : exec T.S.cs T.P (n + 1) s (.aload dst dt arr t cnt xb idx) = some out)
-    (hfr : frag T.P T.cnts (.aload dst dt arr t cnt xb idx) = true)
+    (hfr : frag T.P T.cnts T.W (.aload dst dt arr t cnt xb idx) = true)
     (hwt : Stmt.wt T.vtys T.ret lp.1 lp.2 nd (.aload dst dt arr t cnt xb idx) = some nd') (hp : Pos T c nd pre)
     (hext : Ext T (funcstmt T.S.cs brk cont (.aload dst dt arr t cnt xb idx) c).ctx)
     (hits : T.S.its = pre ++ (funcstmt T.S.cs brk cont (.aload dst dt arr t cnt xb idx) c).items ++ post)
-    (inv : SInv T.M0 T.S.cs T.cnts T.σ T.vtys s env M) :
+    (inv : SInv T.M0 T.S.cs T.cnts T.W T.σ T.vtys s env M) :
     Post T lp brk cont (T.at env M pre)
       (pre ++ (funcstmt T.S.cs brk cont (.aload dst dt arr t cnt xb idx) c).items)
       (funcstmt T.S.cs brk cont (.aload dst dt arr t cnt xb idx) c).ctx out := by
@@ -159,7 +159,7 @@ theorem sim_aload (n : Nat) (dst : Nat) (dt : CSem.Ty) (arr : Nat) (t : CSem.Ty)
     simp only [Option.map_eq_some_iff] at hex
     obtain ⟨v, hv, rfl⟩ := hex
     simp only [frag, arrsOK, Bool.and_eq_true, decide_eq_true_eq] at hfr
-    obtain ⟨⟨hc1, hcn⟩, hxb⟩ := hfr
+    obtain ⟨⟨⟨hc1, hcn⟩, hxb⟩, hWd, _⟩ := hfr
     subst hxb
     simp only [Stmt.wt] at hwt
     split at hwt
@@ -239,10 +239,10 @@ theorem sim_aload (n : Nat) (dst : Nat) (dt : CSem.Ty) (arr : Nat) (t : CSem.Ty)
       have hfrall : Frame c.lastid ov.ctx.lastid env env3 :=
         Frame.trans (Frame.trans hfr1 hfr2 (Nat.le_refl _) hl1 (by omega) (Nat.le_refl _)) hfr3
           (Nat.le_refl _) (by omega) hle3 (Nat.le_refl _)
-      have inv3 : SInv T.M0 T.S.cs T.cnts T.σ T.vtys s env3 M := inv.env (slots_kept hp hpre hfut hfrall)
+      have inv3 : SInv T.M0 T.S.cs T.cnts T.W T.σ T.vtys s env3 M := inv.env (slots_kept hp hpre hfut hfrall)
       have hvr : InRange (dt.intTy T.S.cs) (conv (t.intTy T.S.cs) (dt.intTy T.S.cs) v) :=
         Eval.wrap_inRange (ty_valid T.S.cs dt) _
-      obtain ⟨M', hr4, inv4⟩ := sim_store T dst dt ov.val (c.slots.getD dst 0) hits3 (hpre dst hdst) hdt hval3
+      obtain ⟨M', hr4, inv4⟩ := sim_store T dst dt ov.val (c.slots.getD dst 0) hits3 (hpre dst hdst) hdt hWd hval3
         hvr hrep3 inv3
       refine ⟨hp.jump, n1 + n2 + n3 + 1, env3, M', ?_, inv4⟩
       have := ((hreach1.trans hreach2).trans hreach3).trans hr4
